@@ -51,7 +51,10 @@ ThreeTiers(n1, n2, n3) ==
                  ents |-> << [t |-> Nm(1, "dec"), l |-> <<>>], [t |-> Nm(3, "dec"), l |-> <<C("O", "x")>>] >>],
                 [kind |-> "I", name |-> n3, lo |-> Nm(0, "int"), hi |-> Nm(9, "int"), ents |-> <<>>] >>]
 DocsC == { ThreeTiers(n1, n2, n3) : n1 \in {NmN}, n2 \in {NmN, NmN2, <<C("O", "p")>>}, n3 \in {NmN, NmN2, <<C("O", "x")>>} }
-Docs == DocsA \cup DocsB \cup DocsC
+\* labels consisting of or surrounded by white space (the reader trims; an all-blank label counts as empty)
+WsLabels == {<<C("SP", 0)>>, <<C("SP", 0), C("O", "x")>>, <<C("O", "x"), C("SP", 0)>>, <<C("NL", 0)>>, <<C("SP", 0), C("SP", 0)>>}
+DocsD == { MkDoc("dec", "int", <<C("O", "n")>>, l1, l2) : l1 \in WsLabels, l2 \in WsLabels }
+Docs == DocsA \cup DocsB \cup DocsC \cup DocsD
 DSeq == SetToSeq(Docs)
 MyDocs == { DSeq[i] : i \in { j \in 1..Len(DSeq) : j % NSlices = Slice } }
 Layouts == {"short", "long", "elan"}
